@@ -25,10 +25,12 @@ VARIABLES cfg,        \* [kind, pols, nant, delays (seq), omitted]
           out,        \* samples returned by the last GetSamples: out[a][p] = seq of [o, on, b, bn]
           base,       \* tick of the last SetTime (observation start)
           cnt,        \* samples delivered since then
+          skew,       \* skew[a][p] = samples requested from that polarisation stream DIRECTLY since the last set_time
+                      \* (the stream runs ahead of its antenna by that much until the next set_time / add_time / reset_start)
           hist
 
-vars == <<cfg, own, aclk, bg, arr, cache, out, base, cnt, hist>>
-View == <<cfg, own, aclk, bg, arr, cache, out, base, cnt>>
+vars == <<cfg, own, aclk, bg, arr, cache, out, base, cnt, skew, hist>>
+View == <<cfg, own, aclk, bg, arr, cache, out, base, cnt, skew>>
 
 DelayVecs == {<<0>>, <<2>>, <<0, 0>>, <<0, 2>>, <<1, 0>>, <<2, 1>>, <<0, 2, 1>>, <<1, 1, 2>>}
 T0s == T0Set           \* the start time given at construction (ticks): every clock of the object graph starts there
@@ -49,6 +51,7 @@ Init == /\ cfg \in Configs
         /\ arr = [clock |-> cfg.t0, start |-> TRUE]
         /\ cache = [a \in 1..3 |-> [p \in 1..2 |-> [set |-> FALSE, v |-> <<>>]]]
         /\ out = <<>> /\ base = cfg.t0 /\ cnt = 0 /\ hist = <<>>
+        /\ skew = [a \in 1..3 |-> [p \in 1..2 |-> 0]]
 
 Active == Len(hist) < MaxOps
 Log(a, o) == Active /\ hist' = Append(hist, [act |-> a, out |-> o,
@@ -67,7 +70,7 @@ GetAntenna(n) ==
        /\ own' = [a \in 1..3 |-> [p \in 1..2 |-> IF a \in Ants /\ p \in Pols THEN Adv(own[a][p], n) ELSE own[a][p]]]
        /\ aclk' = [a \in 1..3 |-> IF a \in Ants THEN [clock |-> aclk[a].clock + n, start |-> FALSE] ELSE aclk[a]]
        /\ cnt' = cnt + n
-       /\ UNCHANGED <<cfg, bg, arr, cache, base>>
+       /\ UNCHANGED <<cfg, bg, arr, cache, base, skew>>
        /\ Log([name |-> "GetSamples", n |-> n], o)
 
 (* MultiAntennaArray.get_samples(n), n > max delay *)
@@ -89,7 +92,7 @@ GetArray(n) ==
                                                     ELSE cache[a][p]]]
        /\ arr' = [clock |-> arr.clock + n, start |-> FALSE]
        /\ cnt' = cnt + n
-       /\ UNCHANGED <<cfg, aclk, base>>
+       /\ UNCHANGED <<cfg, aclk, base, skew>>
        /\ Log([name |-> "GetSamples", n |-> n], o)
 
 (* set_time(t) on the antenna / array: every clock to t, start flags raised, carried background dropped *)
@@ -102,6 +105,7 @@ SetAll(t, a) ==
             /\ cache' = [x \in 1..3 |-> [p \in 1..2 |-> IF x \in Ants THEN [set |-> FALSE, v |-> <<>>] ELSE cache[x][p]]]
        ELSE UNCHANGED <<bg, arr, cache>>
     /\ base' = t /\ cnt' = 0 /\ out' = <<>>
+    /\ skew' = [x \in 1..3 |-> [p \in 1..2 |-> 0]]      \* every stream is re-synchronised to the antenna's clock
     /\ UNCHANGED cfg
     /\ Log(a, <<>>)
 
@@ -116,28 +120,40 @@ UpdateNoiseOwn(a, p, m) ==
     /\ a \in Ants /\ p \in Pols
     /\ own' = [own EXCEPT ![a][p].rng = @ + m]
     /\ out' = <<>>
-    /\ UNCHANGED <<cfg, aclk, bg, arr, cache, base, cnt>>
+    /\ UNCHANGED <<cfg, aclk, bg, arr, cache, base, cnt, skew>>
     /\ Log([name |-> "UpdateNoiseOwn", a |-> a, p |-> p, m |-> m], <<>>)
 
 UpdateNoiseBg(p, m) ==
     /\ cfg.kind = "array" /\ p \in Pols
     /\ bg' = [bg EXCEPT ![p].rng = @ + m]
     /\ out' = <<>>
-    /\ UNCHANGED <<cfg, own, aclk, arr, cache, base, cnt>>
+    /\ UNCHANGED <<cfg, own, aclk, arr, cache, base, cnt, skew>>
     /\ Log([name |-> "UpdateNoiseBg", p |-> p, m |-> m], <<>>)
+
+(* antenna.streams[p].get_samples(n): ONE polarisation stream of a stand-alone antenna asked directly (a look at the
+   voltages between two recordings).  Only that stream moves; the antenna's clock, the other polarisation and the sample
+   count of the observation do not.  The next set_time / add_time / reset_start puts every stream back on the antenna's
+   clock (SetAll is absolute), so the following observation is again one timeline for both polarisations. *)
+Peek(a, p, n) ==
+    /\ cfg.kind = "antenna" /\ a \in Ants /\ p \in Pols
+    /\ own' = [own EXCEPT ![a][p] = Adv(own[a][p], n)]
+    /\ skew' = [skew EXCEPT ![a][p] = @ + n]
+    /\ out' = <<>>
+    /\ UNCHANGED <<cfg, aclk, bg, arr, cache, base, cnt>>
+    /\ Log([name |-> "Peek", a |-> a, p |-> p, n |-> n], <<>>)
 
 (* a request the library refuses (negative or fractional count; for arrays also a count not above the largest delay):
    it raises and leaves no trace -- clocks, start flags, draw indices and carried background are what they were *)
 BadRequest(kind) ==
     /\ (kind = "small" => (cfg.kind = "array" /\ D >= 1))
     /\ out' = <<>>
-    /\ UNCHANGED <<cfg, own, aclk, bg, arr, cache, base, cnt>>
+    /\ UNCHANGED <<cfg, own, aclk, bg, arr, cache, base, cnt, skew>>
     /\ Log([name |-> "BadRequest", kind |-> kind, n |-> IF kind = "small" THEN D ELSE -1], <<>>)
 
 Done == /\ EmitOn /\ Len(hist) = MaxOps
         /\ PrintT(ToJson([cfg |-> cfg, steps |-> hist]))
         /\ hist' = Append(hist, "done")
-        /\ UNCHANGED <<cfg, own, aclk, bg, arr, cache, out, base, cnt>>
+        /\ UNCHANGED <<cfg, own, aclk, bg, arr, cache, out, base, cnt, skew>>
 
 Next ==
     \/ Done
@@ -149,6 +165,7 @@ Next ==
     \/ \E a \in 1..3, p \in 1..2 : UpdateNoiseOwn(a, p, 3)
     \/ \E p \in 1..2 : UpdateNoiseBg(p, 2)
     \/ \E kind \in {"negative", "fractional", "small"} : BadRequest(kind)
+    \/ \E a \in 1..3, p \in 1..2 : Peek(a, p, 2)
 
 Spec == Init /\ [][Next]_vars
 
@@ -156,14 +173,19 @@ Spec == Init /\ [][Next]_vars
 (* C10: the samples delivered since the last set_time are ticks base, base+1, ... without gap or repeat *)
 Continuity ==
     \A a \in DOMAIN out : \A p \in DOMAIN out[a] : \A j \in 1..Len(out[a][p]) :
-        out[a][p][j].o = base + cnt - Len(out[a][p]) + j - 1
+        out[a][p][j].o = base + cnt + skew[a][p] - Len(out[a][p]) + j - 1
 
 (* every stream's clock is exactly the next tick to deliver *)
-ClockExact == \A a \in Ants, p \in Pols : own[a][p].clock = base + cnt
+ClockExact == \A a \in Ants, p \in Pols : own[a][p].clock = base + cnt + skew[a][p]
+
+(* whatever was asked of single streams in between, a new observation starts with every stream on the antenna's clock *)
+ResyncAtStart == (cfg.kind = "antenna" /\ aclk[1].start) =>
+                     \A p \in Pols : own[1][p].start => own[1][p].clock = aclk[1].clock
 
 (* an antenna keeps its own clock equal to its streams' (stand-alone antenna) *)
 AntennaClockEqualsStreams ==
-    cfg.kind = "antenna" => \A a \in Ants, p \in Pols : aclk[a].clock = own[a][p].clock /\ aclk[a].start = own[a][p].start
+    cfg.kind = "antenna" => \A a \in Ants, p \in Pols : /\ aclk[a].clock + skew[a][p] = own[a][p].clock
+                                                          /\ (skew[a][p] = 0 => aclk[a].start = own[a][p].start)
 
 (* noise draws are consumed in order, never re-used within a request *)
 NoiseInOrder ==
@@ -200,7 +222,7 @@ DefaultDelaysAreZero == cfg.omitted => \A a \in Ants : cfg.delays[a] = 0
 (* a refused request leaves no trace *)
 RefusedLeavesNoTrace ==
     [][(hist' # hist /\ hist'[Len(hist')].act.name = "BadRequest")
-          => (own' = own /\ aclk' = aclk /\ bg' = bg /\ arr' = arr /\ cache' = cache /\ cnt' = cnt)]_vars
+          => (own' = own /\ aclk' = aclk /\ bg' = bg /\ arr' = arr /\ cache' = cache /\ cnt' = cnt /\ skew' = skew)]_vars
 
 UpdateNoiseKeepsClock ==
     [][(\E a \in 1..3, p \in 1..2 : own'[a][p].rng # own[a][p].rng /\ own'[a][p].clock = own[a][p].clock)
